@@ -411,6 +411,10 @@ impl Clone for Natural {
                 return;
             }
             self.ptr = NonNull::new(Box::<[u64]>::into_raw(src.into()).cast()).unwrap();
+        } else {
+            // `source` is stored inline, so `self` must not refer to the array
+            // (dropped below) anymore
+            self.ptr = DANGLING;
         }
         self.len = source.len;
 
